@@ -194,7 +194,12 @@ func handle(h *NtfnsHandler) {
 
 		case <-h.sigSuspend:
 			verifGate(h, "handle.suspended")
-			<-h.sigResume
+			select {
+			case <-h.sigResume:
+			case <-h.quit:
+				logging.CPrint(logging.INFO, "NtfnsHandler stopped", logging.LogFormat{})
+				return
+			}
 			verifGate(h, "handle.resumed")
 
 		case block := <-h.queueBlock:
@@ -1265,7 +1270,11 @@ func (h *NtfnsHandler) OnTransactionReceived(tx *wire.MsgTx) error {
 
 func (h *NtfnsHandler) suspend(log bool, msg string, fields logging.LogFormat) {
 	verifGate(h, "worker.suspend")
-	h.sigSuspend <- struct{}{}
+	// the handler may have returned on quit: do not wait for it for ever
+	select {
+	case h.sigSuspend <- struct{}{}:
+	case <-h.quit:
+	}
 	if log {
 		logging.VPrint(logging.INFO, msg, fields)
 	}
@@ -1273,7 +1282,10 @@ func (h *NtfnsHandler) suspend(log bool, msg string, fields logging.LogFormat) {
 
 func (h *NtfnsHandler) resume(log bool, msg string, fields logging.LogFormat) {
 	verifGate(h, "worker.resume")
-	h.sigResume <- struct{}{}
+	select {
+	case h.sigResume <- struct{}{}:
+	case <-h.quit:
+	}
 	if log {
 		logging.VPrint(logging.INFO, msg, fields)
 	}
